@@ -3,7 +3,11 @@
 package main
 
 import (
+	"context"
 	"fmt"
+	"github.com/google/mtail/internal/logline"
+	"github.com/google/mtail/internal/runtime/compiler"
+	"github.com/google/mtail/internal/runtime/vm"
 	"math"
 	"strconv"
 	"strings"
@@ -172,6 +176,10 @@ func init() {
 					t[j] = g.r.pick(small)
 				}
 				g.emit("conc", hxs(t), strconv.Itoa([]int{2, 4, 8, 16}[i%4]), strconv.Itoa(rounds))
+			}
+			// deletions written in a program, through the compiler and the VM
+			for _, ab := range [][2]string{{"a", "b"}, {"b", "a"}, {"x", "x"}, {"a-", "a"}, {"10", "9"}} {
+				g.emit("vmdel", hx(ab[0]), hx(ab[1]))
 			}
 		},
 		run: c08Run,
@@ -371,8 +379,55 @@ func c08Hist(tuples [][]string) []string {
 	return bad
 }
 
+// c08VMDel: a program's `del m[a][b]` and `del m[a][b] after D` name the tuple (a, b), not another
+// arrangement of the same values: run through the compiler and the VM, then a collection.
+func c08VMDel(a, b string) []string {
+	prog := "counter hits by src, dst\n/^add (\\S+) (\\S+)$/ {\n  hits[$1][$2]++\n}\n/^del (\\S+) (\\S+)$/ {\n  del hits[$1][$2]\n}\n/^exp (\\S+) (\\S+)$/ {\n  del hits[$1][$2] after 1ms\n}\n"
+	c, _ := compiler.New()
+	obj, err := c.Compile("c08.mtail", strings.NewReader(prog))
+	if err != nil || obj == nil {
+		return []string{fmt.Sprintf("the program does not compile: %v", err)}
+	}
+	var m *metrics.Metric
+	for _, mm := range obj.Metrics {
+		if mm.Name == "hits" {
+			m = mm
+		}
+	}
+	v := vm.New("c08.mtail", obj, false, nil, false, false)
+	ctx := context.Background()
+	line := func(s string) { v.ProcessLogLine(ctx, logline.New(ctx, "f", s)) }
+	has := func(x, y string) bool { return m.FindLabelValueOrNil([]string{x, y}) != nil }
+	var bad []string
+	line("add " + a + " " + b)
+	line("add " + b + " " + a)
+	line("del " + a + " " + b)
+	if has(a, b) || (a != b && !has(b, a)) {
+		bad = append(bad, fmt.Sprintf("after `del hits[%s][%s]`: (%s,%s) present=%v, (%s,%s) present=%v", a, b, a, b, has(a, b), b, a, has(b, a)))
+	}
+	line("add " + a + " " + b)
+	line("exp " + a + " " + b)
+	time.Sleep(3 * time.Millisecond)
+	st := metrics.NewStore()
+	_ = st.Add(m)
+	_ = st.Gc()
+	if has(a, b) || (a != b && !has(b, a)) {
+		bad = append(bad, fmt.Sprintf("after `del hits[%s][%s] after 1ms` and a collection: (%s,%s) present=%v, (%s,%s) present=%v", a, b, a, b, has(a, b), b, a, has(b, a)))
+	}
+	return bad
+}
+
 func c08Run(r *runCtx, id string, f []string) {
 	switch f[0] {
+	case "vmdel":
+		if bad := c08VMDel(unhx(f[1]), unhx(f[2])); len(bad) > 0 {
+			r.obs(id, "vmdel BAD")
+			r.fail(id, "tuple-aliasing", "%s", strings.Join(bad, "; "))
+		} else {
+			r.obs(id, "vmdel ok")
+			r.ok(id)
+		}
+		r.stat("vmdel")
 	case "hist":
 		var tuples [][]string
 		for _, t := range f[1:] {
